@@ -48,9 +48,15 @@ func (msg Message) generateUnmarshalBebop(w *iohelp.ErrorWriter, settings Genera
 	exposedName := exposeName(msg.Name, settings)
 	writeLine(w, "func (bbp *%s) UnmarshalBebop(buf []byte) (err error) {", exposedName)
 	writeLine(w, "\tat := 0")
+	writeLine(w, "\tif len(buf) < 4 {")
+	writeLine(w, "\t\treturn io.ErrUnexpectedEOF")
+	writeLine(w, "\t}")
 	writeLine(w, "\t_ = iohelp.ReadUint32Bytes(buf[at:])")
 	writeLine(w, "\tbuf = buf[4:]")
 	writeLine(w, "\tfor {")
+	writeLine(w, "\t\tif len(buf) <= at {")
+	writeLine(w, "\t\t\treturn io.ErrUnexpectedEOF")
+	writeLine(w, "\t\t}")
 	writeLine(w, "\t\tswitch buf[at] {")
 	for _, fd := range fields {
 		name := exposeName(fd.Name, settings)
